@@ -564,6 +564,14 @@ func reifyMergeValue(
 		if err != nil {
 			return reflect.Value{}, err
 		}
+
+		// a value that unpacks itself validates like any other value
+		if err := runValidators(old.Interface(), opts.validators); err != nil {
+			return reflect.Value{}, raiseValidation(val.Context(), val.meta(), "", err)
+		}
+		if err := tryValidate(old); err != nil {
+			return reflect.Value{}, raiseValidation(val.Context(), val.meta(), "", err)
+		}
 		return old, nil
 	}
 
